@@ -260,6 +260,13 @@ func runC06(r *core.Run) {
 		"/" + strings.Repeat("{x: ", 50000),
 		"/" + strings.Repeat("?", 100000),
 		"/{x:" + strings.Repeat(" ", 200000) + "y}",
+		// repetition counts beyond 2^18 (a grammar repetition is not bounded by a count)
+		strings.Repeat("/a", 270000),
+		"/" + strings.Repeat("{a}", 270000),
+		"/{x:" + strings.Repeat(" ", 300000) + "y}",
+	}
+	if r.Thorough() {
+		longs = append(longs, strings.Repeat("/", 300000), "/{a: b"+strings.Repeat(",a: b", 270000)+"}", "/{a: b,"+strings.Repeat(" ", 300000)+"c: d}")
 	}
 	r.Parallel("long", len(longs), func(w *core.W, _ *rand.Rand, i int) {
 		c := &parseCase{S: core.B(longs[i])}
